@@ -190,6 +190,22 @@ def gen_cases(rng, tier):
             cases.append({'kind': 'apply', 'norb': norb, 'mode': 'sb', 'n': n, 'sz': 0,
                           'vec': fqeio.random_state(rng, norb, keys, density=0.8),
                           'ham': {'cls': 'sparse', 'rank': 0, 'entries': ents, 'e0': rng.choice([[0, 0], [2, 0]]), 'real': False}})
+    # large sectors (several blocks / ZAXPY batches of the dense kernels: 126-462 strings of one spin), sparse
+    # Gaussian-integer states spread over the whole address range, sparse tensors: values, not digests
+    for _ in range(5 if tier == 'quick' else 24):
+        norb, na, nb = rng.choice([(10, 4, 1), (10, 5, 1), (12, 3, 1), (11, 1, 5), (9, 4, 2), (10, 2, 5), (11, 5, 0)])
+        keys = fqeio.sector_keys(norb, 'ns', na + nb, na - nb)
+        basis = fqeio.basis_of(norb, keys)
+        vec = [[a, b, rng.randint(-2, 2) or 1, rng.randint(-2, 2)] for a, b in rng.sample(basis, min(len(basis), 14))]
+        cls = rng.choice(['restricted', 'restricted', 'sso', 'dc2', 'diag'])
+        rank = 1 if cls in ('diag',) else (2 if cls == 'dc2' else rng.choice([1, 2, 2, 3]))
+        ham = gen_ham(rng, cls, rank, norb, 'sparse', rng.random() < 0.4, rng.random() < 0.5)
+        ham['entries'] = ham['entries'][:8]
+        if cls == 'sso':
+            ham['entries'] = _sso_filter(ham['entries'], norb)
+            if rank >= 2:
+                ham['entries'] = pair_symmetrise(ham['entries'])
+        cases.append({'kind': 'apply', 'norb': norb, 'mode': 'ns', 'n': na + nb, 'sz': na - nb, 'vec': vec, 'ham': ham, 'big': True})
     # number-broken wavefunctions: Hermitian FermionOperators with pairing terms
     for _ in range(25 if tier == 'quick' else 100):
         norb = rng.randint(1, 3)
